@@ -36,7 +36,7 @@ import traceback
 os.environ["STABILIZE_SQLITE_BUSY_TIMEOUT_MS"] = os.environ.get("VERIF_BUSY_MS", "60")
 
 from . import core  # noqa: E402  (must precede any stabilize import)
-from . import evidence, findings, tlc  # noqa: E402
+from . import evidence, tlc  # noqa: E402
 
 NPROC = int(os.environ.get("VERIF_NPROC", "16"))
 INVARIANTS = ["TypeOK", "OneWinnerPerVersion", "NoLostUpdate", "VersionChain", "LoserSeesError", "NoPhantom",
